@@ -43,7 +43,7 @@ def main():
     if sel:
         muts = [m for m in muts if m["prop"] in sel or m["name"] in sel]
     bad = 0
-    with cf.ThreadPoolExecutor(max_workers=6) as ex:
+    with cf.ThreadPoolExecutor(max_workers=3) as ex:
         for m, status, info in ex.map(run_one, muts):
             print(f"{status:12s} {m['prop']} {m['name']}: {info}")
             if status not in ("CAUGHT",) and not m.get("expect_miss"):
